@@ -126,6 +126,7 @@ static Verdict runC01(const Case &cs) {
       ParseOpts po; po.analyse_tree = false;
       Outcome o = runParse(*b, codes, cf, po);
       v.parses++;
+      if (o.exploded()) { v.labels.insert(o.explosionLabel()); b->destroy(); delete b; continue; } // harness limits (listed findings)
       std::string where = " [" + cf.str() + " input=" + inputStr(codes) + " sentence=" + std::to_string(sent) + "] got " + o.str();
       if (o.rc != 0) { v.fail("yaep_parse returned " + std::to_string(o.rc) + where); return v; }
       if (!rec) {
@@ -198,6 +199,7 @@ static Verdict runC02(const Case &cs) {
       Conf cf; cf.la = la; cf.one = 1; cf.cost = 0; cf.rec = 0;
       Outcome o = runParse(*b, codes, cf);
       v.parses++;
+      if (o.exploded()) { v.labels.insert(o.explosionLabel()); b->destroy(); delete b; continue; } // harness limits (listed findings)
       std::string where = " [" + cf.str() + " input=" + inputStr(codes) + "] got " + o.str() + " reference=" + setStr(rt.all);
       if (o.rc != 0 || !o.root || !o.errs.empty()) { v.fail("sentence not accepted" + where); return v; }
       if (!o.tree.ok) { v.fail("malformed tree: " + o.tree.problem + where); return v; }
@@ -238,6 +240,7 @@ static Verdict runC03(const Case &cs) {
       Outcome o = runParse(*b, codes, cf);
       yaep_verif.track = 0;
       v.parses++;
+      if (o.exploded()) { v.labels.insert(o.explosionLabel()); b->destroy(); delete b; continue; } // harness limits (listed findings)
       std::string where = " [" + cf.str() + " input=" + inputStr(codes) + "] got " + o.str() + " reference=" + setStr(rt.all);
       if (o.rc != 0 || !o.root || !o.errs.empty()) { v.fail("sentence not accepted" + where); return v; }
       if (!o.tree.ok) { v.fail("malformed DAG: " + o.tree.problem + where); return v; }
@@ -291,6 +294,7 @@ static Verdict runC04(const Case &cs) {
         Outcome o = runParse(*b, codes, cf);
         yaep_verif.track = 0;
         v.parses++;
+        if (o.exploded()) { v.labels.insert(o.explosionLabel()); b->destroy(); delete b; continue; } // harness limits (listed findings)
         std::string where = " [" + cf.str() + " input=" + inputStr(codes) + "] got " + o.str();
         if (o.rc != 0 || !o.root) { v.fail("sentence not accepted" + where); return v; }
         if (!o.tree.ok) { v.fail("malformed DAG: " + o.tree.problem + where); return v; }
@@ -310,6 +314,7 @@ static Verdict runC04(const Case &cs) {
         Conf cf; cf.la = la; cf.one = one; cf.cost = 1; cf.freemode = fm;
         Outcome o = runParse(*b, codes, cf);
         v.parses++;
+        if (o.exploded()) { v.labels.insert(o.explosionLabel()); b->destroy(); delete b; continue; } // harness limits (listed findings)
         std::string where = " [" + cf.str() + " input=" + inputStr(codes) + "] got " + o.str() + " reference all=" + setStr(rt.all) + " argmin=" + setStr(rt.argmin);
         if (o.rc != 0 || !o.root || !o.errs.empty()) { v.fail("sentence not accepted" + where); return v; }
         if (!o.tree.ok) { v.fail("malformed result: " + o.tree.problem + where); return v; }
@@ -371,6 +376,7 @@ static Verdict runC05(const Case &cs) {
       ParseOpts po; po.analyse_tree = false;
       Outcome o = runParse(*b, codes, cf, po);
       v.parses++;
+      if (o.exploded()) { v.labels.insert(o.explosionLabel()); b->destroy(); delete b; continue; } // harness limits (listed findings)
       std::string where = " [" + cf.str() + " input=" + inputStr(codes) + "] got " + o.str() + " derivations=" + std::to_string(rt.nder) + " translations=" + std::to_string(rt.all.size());
       if (o.rc != 0 || !o.root) { v.fail("sentence not accepted" + where); return v; }
       if (o.amb && rt.nder < 2) { v.fail("ambiguity flag set although the input has a single derivation" + where); return v; }
@@ -465,7 +471,7 @@ static Verdict runC09(const Case &cs) {
       yaep_verif.cache_check = 0; yaep_verif.track = 0;
       v.parses++;
       b->destroy(); delete b;
-      if (o.hook.rec_explosion) { v.labels.insert("excluded:F27-recovery-explosion"); key = "EXPLOSION"; return true; }
+      if (o.exploded()) { v.labels.insert(o.explosionLabel()); key = "EXPLOSION"; return true; }
       if (o.hook.n_mismatch) { v.fail("a reused (cached) Earley set differs from the set a fresh computation produces: " + std::to_string(o.hook.n_mismatch) + " of " + std::to_string(o.hook.n_hits) + " cache hits [" + cf.str() + " input=" + inputStr(codes) + "]"); return false; }
       hits += o.hook.n_hits;
       if (!o.tree.ok && o.rc == 0 && o.root) { v.fail("malformed tree: " + o.tree.problem + " [" + cf.str() + "]"); return false; }
